@@ -1517,11 +1517,23 @@ fn snapshot_vs_lock_holder(out: &mut Out) {
     use std::sync::atomic::{AtomicBool, AtomicUsize, Ordering as O};
     static ARMED: AtomicBool = AtomicBool::new(false);
     static INSIDE: AtomicUsize = AtomicUsize::new(0);
-    thread_local! { static HOLDER: std::cell::Cell<bool> = std::cell::Cell::new(false); }
+    thread_local! { static HOLDER: std::cell::Cell<usize> = std::cell::Cell::new(0); }
+    // `register_counter` clones the key twice: once for the `seen` list (two `Cow::clone` points: name, labels — outside
+    // the registry) and once inside `get_or_create_counter`'s slow path, UNDER the subshard's write lock (points 3 and 4
+    // of the holder thread). The holder is kept at its third point.
     fn hook(id: &'static str) {
-        if id == "cow-clone" && ARMED.load(O::SeqCst) && HOLDER.with(|h| h.get()) {
-            INSIDE.fetch_add(1, O::SeqCst);
-            std::thread::sleep(std::time::Duration::from_millis(120));
+        if id == "cow-clone" && ARMED.load(O::SeqCst) {
+            let n = HOLDER.with(|h| {
+                let v = h.get();
+                if v > 0 {
+                    h.set(v + 1);
+                }
+                v
+            });
+            if n == 3 {
+                INSIDE.fetch_add(1, O::SeqCst);
+                std::thread::sleep(std::time::Duration::from_millis(150));
+            }
         }
     }
     out.case("snapshot while a registration holds a subshard lock");
@@ -1540,7 +1552,7 @@ fn snapshot_vs_lock_holder(out: &mut Out) {
         ARMED.store(true, O::SeqCst);
         let r2 = rec.clone();
         let holder = std::thread::spawn(move || {
-            HOLDER.with(|h| h.set(true));
+            HOLDER.with(|h| h.set(1));
             let meta = metrics::Metadata::new("t", metrics::Level::INFO, None);
             // a NEW key: the slow path clones it under the subshard's write lock
             r2.register_counter(&Key::from_name(format!("newcomer_{}", round)), &meta).increment(1);
